@@ -325,6 +325,17 @@ def gen_inputs(tier, rnd):
                     fam.append((form + ", 'a'" + sep + "'z'", [[code, code], [97, 122]]))
                 for desc, items in fam:
                     yield {"kind": "range", "desc": desc, "probes": probes_for(items), "den": items}
+    # descriptions that differ only in the case of their letters: symbolic names and hex digits denote the same in
+    # either case, quoted characters do not ('a' is 97, 'A' is 65)
+    for lo, hi in (("a", "z"), ("b", "y"), ("k", "k"), ("x", "z")):
+        for sep in SEPS:
+            for swap in (False, True):
+                for first_upper in (False, True):
+                    a, b = (lo.upper(), hi.upper()) if first_upper != swap else (lo, hi)
+                    desc = ("'%s'%s'%s'" % (a, sep, b)) if a != b else "'%s'" % a
+                    for d, items in ((desc, [[ord(a), ord(b)]]), ("tab, " + desc if not first_upper else "TAB, " + desc, [[9, 9], [ord(a), ord(b)]]),
+                                     (("0x1f, " if not first_upper else "0X1F, ") + desc, [[31, 31], [ord(a), ord(b)]])):
+                        yield {"kind": "range", "desc": d, "probes": probes_for(items), "den": items}
     # malformed stream
     for m in MALFORMED:
         yield {"kind": "range", "desc": m, "probes": [0, 1, 65]}
